@@ -1,7 +1,7 @@
 // replay-of: property=C06 obligation=C06.sound_wa_n3_v1_c1 crate=kani_core harness=c06::c06_sound_wa_n3_v1_c1 rustflags=--cfg facebook_akd_verif
 /// Test generated for harness `c06::c06_sound_wa_n3_v1_c1` 
 ///
-/// Check for `assertion`: "rust_dealloc must be called on an object whose allocated size matches its layout"
+/// Check for `assertion`: ""lookup accepted for a version that is not the latest""
 ///
 /// # Warning
 ///
@@ -15,24 +15,24 @@
 /// logic.
 
 #[test]
-fn kani_concrete_playback_c06_sound_wa_n3_v1_c1_14400784895799507419() {
+fn kani_concrete_playback_c06_sound_wa_n3_v1_c1_9667583879818257283() {
     let concrete_vals: Vec<Vec<u8>> = vec![
-        // 255
-        vec![255],
-        // 254
-        vec![254],
-        // 255
-        vec![255],
-        // 255
-        vec![255],
-        // 255
-        vec![255],
-        // 255
-        vec![255],
-        // 255
-        vec![255],
-        // 255
-        vec![255],
+        // 1
+        vec![1],
+        // 1
+        vec![1],
+        // 1
+        vec![1],
+        // 1
+        vec![1],
+        // 1
+        vec![1],
+        // 1
+        vec![1],
+        // 1
+        vec![1],
+        // 1
+        vec![1],
         // 255
         vec![255],
         // 255
@@ -51,56 +51,50 @@ fn kani_concrete_playback_c06_sound_wa_n3_v1_c1_14400784895799507419() {
         vec![255],
         // 3ul
         vec![3, 0, 0, 0, 0, 0, 0, 0],
-        // 255
-        vec![255],
-        // 255
-        vec![255],
-        // 255
-        vec![255],
+        // 251
+        vec![251],
+        // 251
+        vec![251],
+        // 251
+        vec![251],
         // 0
         vec![0],
         // 0
         vec![0],
-        // 0
-        vec![0],
+        // 1
+        vec![1],
         // 1ul
         vec![1, 0, 0, 0, 0, 0, 0, 0],
         // 2ul
         vec![2, 0, 0, 0, 0, 0, 0, 0],
-        // 4ul
-        vec![4, 0, 0, 0, 0, 0, 0, 0],
+        // 5ul
+        vec![5, 0, 0, 0, 0, 0, 0, 0],
         // 7ul
         vec![7, 0, 0, 0, 0, 0, 0, 0],
-        // 18446744073709551615ul
-        vec![255, 255, 255, 255, 255, 255, 255, 255],
-        // 18446744073709551615ul
-        vec![255, 255, 255, 255, 255, 255, 255, 255],
         // 2ul
         vec![2, 0, 0, 0, 0, 0, 0, 0],
-        // 255
-        vec![255],
+        // 251
+        vec![251],
         // 2ul
         vec![2, 0, 0, 0, 0, 0, 0, 0],
-        // 1
-        vec![1],
-        // 2ul
-        vec![2, 0, 0, 0, 0, 0, 0, 0],
-        // 1
-        vec![1],
-        // 7
-        vec![7, 0],
-        // 1
-        vec![1],
-        // 1ul
-        vec![1, 0, 0, 0, 0, 0, 0, 0],
-        // 1
-        vec![1],
-        // 4
-        vec![4, 0],
         // 0
         vec![0],
-        // 768
-        vec![0, 3],
+        // 65314
+        vec![34, 255],
+        // 1
+        vec![1],
+        // 1
+        vec![1],
+        // 2ul
+        vec![2, 0, 0, 0, 0, 0, 0, 0],
+        // 1
+        vec![1],
+        // 1
+        vec![1],
+        // 0
+        vec![0],
+        // 259
+        vec![3, 1],
         // 0
         vec![0],
     ];
